@@ -36,6 +36,12 @@ def fw_model(events, *, keep=("SER", "LVL", "SERVO", "PASS")):
         t = t_us / 1000.0
         if kind == "SER":
             text = unesc(f[0]) if f else ""
+            if any(ord(c) > 127 for c in text):
+                # the log carries raw bytes (\xNN); the sketch source is UTF-8
+                try:
+                    text = text.encode("latin-1").decode("utf-8")
+                except (UnicodeError, ValueError):
+                    pass
             num = None
             if len(f) > 1 and f[1] != "-":
                 try:
